@@ -378,7 +378,8 @@ class ProgressBar(object):
     @property
     def bar_offset(self):  # type: () -> int
         if self._max:
-            return math.floor(self._percent * self.bar_width)
+            # Integer arithmetic: step / max * width suffers from float rounding
+            return self._step * self.bar_width // self._max
         else:
             if self.redraw_freq is None:
                 return math.floor(
@@ -443,4 +444,8 @@ class ProgressBar(object):
         return self._max
 
     def _formatter_percent(self):
-        return int(math.floor(self._percent * 100))
+        if not self._max:
+            return 0
+
+        # Integer arithmetic: floor(step / max * 100) is one short for e.g. 29/100
+        return self._step * 100 // self._max
